@@ -429,7 +429,7 @@ func writeEvidence(path, prop, tier string, seed int64, ps *PropSpec, reports []
 		samples = append(samples, "no completed path")
 	}
 	cov["explanation"] = ps.Explanation
-	cov["technique"] = "bounded symbolic execution of the real Go SSA (go/ssa) with SMT verdicts (z3 5.1.0 as z3-new; verdict queries re-decided one-shot by z3 4.8.12 and cvc5 1.0); counterexamples replayed natively with go test -overlay"
+	cov["technique"] = "bounded symbolic execution of the real Go SSA (go/ssa) with SMT verdicts (decided by z3 4.8.12 in a portfolio with cvc5's integer encoding of bit-vectors; a seeded sample of the verdict queries is re-decided one-shot by z3 5.1.0, z3 4.8.12 and cvc5 1.0, any disagreement is reported as a problem); counterexamples replayed natively with go test -overlay"
 	cov["bounds"] = ps.Bounds
 	cov["evaluations"] = paths
 	cov["distinct_nontrivial"] = len(distinct)
